@@ -113,6 +113,8 @@ def erase_names(e, names):
         return erase_names(e[1][1], names)
     if e[0] in ("try", "mutated") and len(e) == 2 and isinstance(e[1], tuple) and e[1][0] in ("var", "param", "capture"):
         return erase_names(e[1], names)
+    if e[0] == "const" and len(e) >= 3 and e[1] is None and isinstance(e[2], str) and e[2].lstrip().startswith(('"', 'b"')):
+        return ("const", None, '"$text"')  # the wording of a panic message is not behaviour
     if e[0] in ("var", "param", "capture") and len(e) == 2:
         if e[1] == "self":
             return e
@@ -593,6 +595,14 @@ def r4(ctx):
     listed = load_loops()
     n = {"iterator": 0, "await": 0, "listed": 0}
     used = set()
+    # what a local `Iterator::next` forwards to (`fn next(&mut self) { self.parse_one() }`): a loop driving that function directly is the
+    # same iterator-driven loop as `for x in it`
+    next_like = set()
+    for p_, b_ in prog.bodies.items():
+        if re.search(r" as (std::|core::)?(iter::)?(traits::iterator::)?Iterator>::next$", p_):
+            cs_ = [c_ for c_ in b_.calls() if not is_tracing(c_.term.macros) and (c_.term.callee or "") in prog.bodies]
+            if len(cs_) == 1 and len([x for x in b_.calls() if not is_tracing(x.term.macros)]) == 1:
+                next_like.add(cs_[0].term.callee)
     for p in sorted(reach):
         bd = prog.bodies.get(p)
         if bd is None or "::tests::" in p or "::test::" in p:
@@ -604,7 +614,7 @@ def r4(ctx):
                 continue
             has_yield = any(b.term.kind == "yield" for b in blocks)
             has_exit = any(s_ not in comp for i in comp for s_ in succ[i])
-            it_next = any(b.term.kind == "call" and (b.term.declared or "").endswith("Iterator::next") for b in blocks)
+            it_next = any(b.term.kind == "call" and ((b.term.declared or "").endswith("Iterator::next") or (b.term.callee or "") in next_like) for b in blocks)
             key = "loop@%s#%d" % (nice(p), min(comp))
             where = bd.where(min(comp))
             if not has_exit and not has_yield:
